@@ -3,6 +3,7 @@ package simkafka
 import (
 	"fmt"
 	"sort"
+	"time"
 
 	"github.com/Shopify/sarama"
 
@@ -77,12 +78,11 @@ func (cl *Cluster) fetchVariants(r *Req, req *sarama.FetchRequest) []gx.Variant 
 		// long poll: a broker holds a fetch that has nothing to return until data arrives or MaxWaitTime
 		// expires, i.e. until (fake) time has passed since the request arrived: it becomes answerable
 		// (with an empty response) once the scenario has let time pass by a "tick:" action
-		ticks := cl.C.CountPrefix("tick:")
 		if !r.prepared {
 			r.prepared = true
-			r.ticksAtArrival = ticks
+			r.arrival = time.Now() // fake time of the bubble
 		}
-		if ticks <= r.ticksAtArrival {
+		if time.Since(r.arrival) < 250*time.Millisecond { // Consumer.MaxWaitTime default
 			return nil
 		}
 		return []gx.Variant{cl.wrap(r, "Fetch", "poll-expires", func() { cl.doFetch(r, req, blocks, "ok", -1) })}
